@@ -58,6 +58,7 @@ type JobRec struct {
 	Wrote        []string    `json:"-"`
 	proc         *vrt.Proc
 	aborted      bool
+	StartAt      time.Duration `json:"-"` // simulated time at which the job process started
 	finishing    bool
 	sleeping     bool // inside the long computation of a "slow" job
 	md           *core.Metadata
@@ -311,6 +312,7 @@ func (r *Run) jobSignal(j *JobRec, sig syscall.Signal) {
 
 // jobMain is the main task of a job process.
 func (r *Run) jobMain(j *JobRec) int {
+	j.StartAt = time.Since(r.Start)
 	md := core.NewMetadataRunWithJournalPath(path.Base(j.RunFile), j.MetaPath,
 		j.FilesPath, path.Dir(j.RunFile), j.Phase)
 	j.md = md
